@@ -229,13 +229,23 @@ static int apply(ezc3d::c3d*& c, unsigned op) {
 }
 
 static ezc3d::c3d* start_state(int s) {
-  if (s >= 3) return new ezc3d::c3d("in.c3d");
+  if (s >= 3 && s <= 6) return new ezc3d::c3d("in.c3d");
   ezc3d::c3d* c = new ezc3d::c3d();
-  if (s >= 1) {
+  if (s >= 1 && s != 7) {
     set_rate(*c, "POINT", 100.f); set_rate(*c, "ANALOG", 200.f);
     c->point("p0"); c->point("p1"); c->analog("a0");
   }
   if (s == 2) { Dev d; c->frame(make_frame(*c, d)); c->frame(make_frame(*c, d)); }
+  if (s == 7) {     // two channels declared under the same name on a frame-less object (accepted), as many files in the wild have it
+    set_rate(*c, "POINT", 100.f); set_rate(*c, "ANALOG", 200.f);
+    c->point("p0"); c->point("p1"); c->analog("dup"); c->analog("dup");
+    for (int k = 0; k < 2; ++k) {
+      Frame fr; Points pts; Analogs ana;
+      for (int i = 0; i < 2; ++i) { Point p; p.name(num("p", i)); p.x(__vp_sym_f32("x")); p.y(__vp_sym_f32("y")); p.z(__vp_sym_f32("z")); p.residual(__vp_sym_f32("r")); pts.point(p); }
+      for (int sfi = 0; sfi < 2; ++sfi) { SubFrame sf; for (int i = 0; i < 2; ++i) { Channel ch; ch.name("dup"); ch.data(__vp_sym_f32("a")); sf.channel(ch); } ana.subframe(sf); }
+      fr.add(pts, ana); c->frame(fr);
+    }
+  }
   return c;
 }
 
